@@ -461,12 +461,48 @@ impl Next for Prec {
 //@ fn sylt-parser/src/parser.rs is_capitalized
 //@   mode assumed
 //@ end
-//@ fn sylt-parser/src/parser.rs type_assignable
-//@   mode assumed
+//@ fn sylt-parser/src/parser.rs parse_type_constraint_argument
+//@   props C07
+//@   attr #[verifier::exec_allows_no_decreases_clause]
 //@   ret r
 //@   spec
-    // assumed (read off the body: every failure is one raise_syntax_error! / expect!)
-    ensures r is Err ==> r->Err_0.1.len() >= 1,
+    ensures r is Err ==> r->Err_0.1.len() >= 1, //# C07 parse_type_constraint_argument.an_error_result_is_never_an_empty_list
+        r is Ok ==> r->Ok_0.0.tok() is Plus || r->Ok_0.0.tok() is Comma || r->Ok_0.0.tok() is Greater, //# C07 parse_type_constraint_argument.stops_at_plus_comma_or_greater
+//@   endspec
+//@   loop 1
+        ensures ctx.tok() is Plus || ctx.tok() is Comma || ctx.tok() is Greater, //# C07 parse_type_constraint_argument.loop.exit
+//@   endloop
+//@ end
+//@ fn sylt-parser/src/parser.rs parse_type_constraint
+//@   props C07
+//@   ret r
+//@   spec
+    ensures r is Err ==> r->Err_0.1.len() >= 1, //# C07 parse_type_constraint.an_error_result_is_never_an_empty_list
+        r is Ok ==> r->Ok_0.0.tok() is Plus || r->Ok_0.0.tok() is Comma || r->Ok_0.0.tok() is Greater, //# C07 parse_type_constraint.stops_at_plus_comma_or_greater
+//@   endspec
+//@ end
+//@ fn sylt-parser/src/parser.rs type_assignable
+//@   props C07
+//@   ret r
+//@   rewrite equivalent count=2
+//@- T::Identifier(name) if is_capitalized(name) => {
+//@+ T::Identifier(name) => if is_capitalized(name) {
+//@   why Verus cannot mutate through a guarded arm and the two guarded arms share one pattern: the second guard is the negation of the first (is_capitalized is a pure function of the name), so the two arms are the two branches of one if (second half below)
+//@   endrewrite
+//@   rewrite equivalent count=2
+//@- T::Identifier(name) if !is_capitalized(name) => {
+//@+ else {
+//@   why second half of the rewrite above
+//@   endrewrite
+//@   inner type_assignable_inner
+//@     attr #[verifier::exec_allows_no_decreases_clause]
+//@     ret r
+//@     spec
+        ensures r is Err ==> r->Err_0.1.len() >= 1, //# C07 type_assignable_inner.an_error_result_is_never_an_empty_list
+//@     endspec
+//@   endinner
+//@   spec
+    ensures r is Err ==> r->Err_0.1.len() >= 1, //# C07 type_assignable.an_error_result_is_never_an_empty_list
 //@   endspec
 //@ end
 //@ fn sylt-parser/src/parser.rs assignable_call
